@@ -164,7 +164,13 @@ fn confusable_ids(r: &mut Rng) -> (Vec<Identifier>, Vec<Identifier>) {
     let mut x: Vec<Identifier> = (0..n).map(|_| identifier(r)).collect();
     let mut y = x.clone();
     let k = r.below(n as u64) as usize;
-    match r.below(4) {
+    match r.below(5) {
+        4 => {
+            // adjacent large numerics: equal as f64, different as integers
+            let big = *r.pick(&[u64::MAX, u64::MAX - 1, 9007199254740993, 9007199254740992, 10000000000000000001, 1u64 << 63, (1u64 << 63) + 1]);
+            x[k] = Identifier::Numeric(big);
+            y[k] = Identifier::Numeric(if r.chance(1, 2) { big.wrapping_sub(1) } else { big.saturating_add(1) });
+        }
         0 => {
             x[k] = Identifier::AlphaNumeric(r.pick(FAM).to_string());
             y[k] = Identifier::AlphaNumeric(r.pick(FAM).to_string());
@@ -268,9 +274,15 @@ fn vdiffs<W: Write>(r: &mut Rng, n: usize, out: &mut W) -> usize {
                 }
             }
         }
-        match r.below(4) {
+        match r.below(5) {
             0 => b.pre_release = vec![],
             1 => b.pre_release = idlist(r, 3),
+            2 => {
+                // tags that differ only in confusable identifiers (case, digits, adjacent large numerics)
+                let (x, y) = confusable_ids(r);
+                a.pre_release = x;
+                b.pre_release = y;
+            }
             _ => {}
         }
         if r.chance(1, 4) {
@@ -343,6 +355,30 @@ fn vtext<W: Write>(r: &mut Rng, n: usize, out: &mut W) -> usize {
                 all.push(format!("v{}", s2).into_bytes());
                 all.push(format!("{}\n", s2).into_bytes());
                 all.push(format!("x\n{}", s2).into_bytes());
+            }
+        }
+    }
+    // digits-only identifiers of 20-25 digits (they overflow u64 by various factors: text identifiers)
+    for lead in ["2", "25", "3", "30", "5", "9", "99", "18446744073709551", "1844674407370955161", "4"] {
+        for extra in [0usize, 1, 2, 4] {
+            let digits = format!("{}{}", lead, "0".repeat((20 + extra).saturating_sub(lead.len())));
+            all.push(format!("1.0.0-{}", digits).into_bytes());
+            all.push(format!("1.0.0-rc.1+{}.5", digits).into_bytes());
+        }
+    }
+    for _ in 0..40 {
+        let digits = format!("{}{}", 1 + r.below(9), (0..19 + r.below(6)).map(|_| char::from(b'0' + r.below(10) as u8)).collect::<String>());
+        all.push(format!("1.0.0-{}", digits).into_bytes());
+        all.push(format!("1.0.0-a.{}+{}", digits, digits).into_bytes());
+    }
+    // over-long, several lines, multi-byte characters between the last line start and the reported position
+    for k in [1usize, 2, 60, 125, 130] {
+        for pre in ["1.2.3\n", "1.2.3-a\nb\n", "\r\n\r\n1.2.3\r\n", "1.2.3\r\n1.2.4\r\n1.2.5\r\n"] {
+            for total in [257usize, 258, 262, 300] {
+                let body = "é".repeat(k);
+                let fill = total.saturating_sub(pre.len() + body.len());
+                all.push(format!("{}{}{}", pre, body, "a".repeat(fill)).into_bytes());
+                all.push(format!("{}{}{}", pre, "9".repeat(fill), body).into_bytes());
             }
         }
     }
@@ -532,10 +568,12 @@ fn raw_ident(r: &mut Rng) -> String {
         0 | 1 => r.below(3).to_string(),
         2 => r.below(40).to_string(),
         3 => format!("0{}", r.below(10)),
-        4 => match r.below(3) {
+        4 => match r.below(5) {
             0 => u64::MAX.to_string(),
             1 => "18446744073709551616".to_string(),
-            _ => (MAX_SAFE_INTEGER + 1).to_string(),
+            2 => (MAX_SAFE_INTEGER + 1).to_string(),
+            // digits-only identifiers that overflow u64 by various amounts: text, not numbers
+            _ => format!("{}{}", 1 + r.below(9), (0..19 + r.below(5)).map(|_| char::from(b'0' + r.below(10) as u8)).collect::<String>()),
         },
         _ => r.pick(ALNUM).to_string(),
     }
@@ -969,7 +1007,9 @@ fn soup<W: Write>(r: &mut Rng, n: usize, out: &mut W) -> usize {
 fn timing<W: Write>(_r: &mut Rng, n: usize, out: &mut W) -> usize {
     // n is the smallest size in bytes; each unit is run at n, 2n, 4n, 8n
     let units = ["1", "1.", "1.2.3 ", ">=1.2.3 ", "1.2.3||", " ", "x", "^1.2.3 ", "1.2.3 - 2.0.0 ", "foo ", "-", "||", "1.2.3-a.b.c.d ", ">", "v", "é",
-                 "~>", "<=1 ", "1.2.3+b ", "* ", "\t", ">=1.2.3 <2.0.0 || ", "900719925474099.", "0"];
+                 "~>", "<=1 ", "1.2.3+b ", "* ", "\t", ">=1.2.3 <2.0.0 || ", "900719925474099.", "0",
+                 // pairwise different pieces (a running counter replaces {i})
+                 "1.2.{i}||", ">={i}.0.0 ", "1.2.3-a.{i} ", "{i}.x || ", "^{i}.{i}.{i} ", "1.{i}.0 - 2.{i}.0||", "foo{i} ", "<{i} >{i}||"];
     let mut cnt = 0;
     for u in units {
         writeln!(out, "{}", json!({"op":"timing","parser":"range","unit":bytes(u),"n":n as u64})).unwrap();
@@ -1020,6 +1060,50 @@ fn rgarbage<W: Write>(r: &mut Rng, n: usize, out: &mut W) -> usize {
     n
 }
 
+/// C11 on derived ranges: parse a and b, subtract both ways, minimise (bounds like `>1.MAX.MAX` only arise this way)
+fn rdiffmin<W: Write>(r: &mut Rng, n: usize, out: &mut W) -> usize {
+    for _ in 0..n {
+        let base = component(r).min(MAX_SAFE_INTEGER - 3);
+        let pool = [base, base + 1, base + 2, 0, 1];
+        let tag_pool: Vec<Vec<String>> = (0..2).map(|_| (0..1 + r.below(2)).map(|_| raw_ident(r)).collect()).collect();
+        let mut mk = |r: &mut Rng| -> String {
+            if r.chance(1, 3) {
+                // upper-bounded forms whose flipped bound sits at MAX_SAFE_INTEGER components
+                let m = *r.pick(&pool);
+                match r.below(4) {
+                    0 => format!("<={}", m),
+                    1 => format!("<={}.{}", m, r.pick(&pool)),
+                    2 => format!("<{}.{}", m, r.pick(&pool)),
+                    _ => format!("<={}.{}.{}", m, r.pick(&pool), MAX_SAFE_INTEGER),
+                }
+            } else {
+                let mut parts = Vec::new();
+                let nalts = 1 + r.below(2);
+                let mut t = String::new();
+                for i in 0..nalts {
+                    if i > 0 {
+                        t.push_str("||");
+                    }
+                    let (_, x, _) = alt_ast(r, &pool, &tag_pool, true, &mut parts);
+                    t.push_str(&x);
+                }
+                t
+            }
+        };
+        let a = mk(r);
+        let b = mk(r);
+        let op = |c: &str, d: u64, x: u64, y: u64| json!({"c":c,"dst":d,"a":x,"b":y,"nilok":true});
+        let steps = vec![
+            json!({"c":"rparse","dst":1,"text":bytes(&a)}), json!({"c":"rparse","dst":2,"text":bytes(&b)}),
+            json!({"c":"minv","a":1}), json!({"c":"minv","a":2}),
+            op("diff", 3, 1, 2), json!({"c":"minv","a":3}), op("diff", 4, 2, 1), json!({"c":"minv","a":4}),
+            op("isect", 5, 1, 2), json!({"c":"minv","a":5}), op("diff", 6, 3, 4), json!({"c":"minv","a":6}),
+        ];
+        writeln!(out, "{}", json!({"op":"steps","steps":steps})).unwrap();
+    }
+    n
+}
+
 fn rtext<W: Write>(r: &mut Rng, n: usize, out: &mut W) -> usize {
     for _ in 0..n {
         let (ast, text, vs) = range_ast(r, 3, true);
@@ -1047,6 +1131,7 @@ pub fn generate<W: Write>(scenario: &str, seed: u64, n: usize, out: &mut W) -> u
         "sessions" => sessions(&mut r, n, out),
         "soup" => soup(&mut r, n, out),
         "rgarbage" => rgarbage(&mut r, n, out),
+        "rdiffmin" => rdiffmin(&mut r, n, out),
         "timing" => timing(&mut r, n, out),
         _ => {
             eprintln!("unknown scenario {}", scenario);
